@@ -21,7 +21,7 @@ import (
 
 type c12Cell struct {
 	size  int // 0 missing, 1 same size, 2 destination larger, 3 destination smaller
-	mt    int // 0 equal, 1 +1s, 2 -1s, 3 sub-second only, 4 far apart
+	mt    int // 0 equal, 1 +1s, 2 -1s, 3 sub-second only, 4 far apart, 5 previous second +0.6s, 6 next second +0.4s, 7 same second +0.999999999s
 	diff  bool
 	opt   int // 0 default, 1 -c, 2 -I, 3 -cI
 	times bool
@@ -31,7 +31,7 @@ type c12Cell struct {
 }
 
 var c12SizeN = []string{"missing", "same-size", "dest-larger", "dest-smaller"}
-var c12MtN = []string{"mtime-equal", "mtime+1s", "mtime-1s", "subsecond-only", "far-apart"}
+var c12MtN = []string{"mtime-equal", "mtime+1s", "mtime-1s", "subsecond-only", "far-apart", "prev-second+0.6s", "next-second+0.4s", "same-second+0.999999999s"}
 var c12OptN = []string{"default", "-c", "-I", "-cI"}
 
 func (c c12Cell) String() string {
@@ -52,7 +52,7 @@ func (c c12Cell) request() bool {
 	case 2:
 		return true
 	}
-	return c.mt == 1 || c.mt == 2 || c.mt == 4
+	return c.mt == 1 || c.mt == 2 || c.mt == 4 || c.mt == 5 || c.mt == 6
 }
 
 const c12Seed = 0x0c12c12
@@ -118,6 +118,12 @@ func c12Run(c c12Cell) core.Result {
 				nsec = 500_000_000
 			case 4:
 				sec = T - 86400*365
+			case 5:
+				sec, nsec = T-1, 600_000_000
+			case 6:
+				sec, nsec = T+1, 400_000_000
+			case 7:
+				nsec = 999_999_999
 			}
 			setMtime(filepath.Join(dest, target), sec, nsec)
 		}
@@ -226,7 +232,7 @@ func c12BuildTable(tier string) core.Source {
 			for opt := 0; opt < 4; opt++ {
 				for _, times := range []bool{true, false} {
 					for size := 0; size < 4; size++ {
-						for mt := 0; mt < 5; mt++ {
+						for mt := 0; mt < 8; mt++ {
 							for _, diff := range []bool{false, true} {
 								if size == 0 && (mt != 0 || diff) {
 									continue // missing: other dimensions meaningless
@@ -479,7 +485,7 @@ func init() {
 	core.Register(&core.Prop{
 		ID:    "C12",
 		Level: "model_checking",
-		Rule: "table: the complete decision table {missing, same size, different size} x {mtime equal, +1s, -1s, sub-second only, far apart} x {content equal, different} x {default,-c,-I,-cI} x {-t on/off} plus non-regular destination entries, each embedded at first/middle/last position of a 3-file directory, in both receiver roles (library client vs scripted server; daemon module vs scripted uploading client); the scripted reference sender records the requested indices. " +
+		Rule: "table: the complete decision table {missing, same size, different size} x {mtime equal, +1s, -1s, sub-second only, far apart, previous second +0.6 s, next second +0.4 s, same second +0.999999999 s} x {content equal, different} x {default,-c,-I,-cI} x {-t on/off} plus non-regular destination entries, each embedded at first/middle/last position of a 3-file directory, in both receiver roles (library client vs scripted server; daemon module vs scripted uploading client); the scripted reference sender records the requested indices. " +
 			"histories: explicit-state BFS (canonical-state dedup) over {touch +1s/-1s/+0.5s, rewrite same size, rewrite other size} on 2 source files and sync(o) for o in {-rt,-a,-rc,-rtI,-r} as real lib-pull sessions; every sync's request set (decoded from the wire) must equal the reference rule evaluated on the model state, no-op syncs must move no data, and the model's successor state is validated against the real destination. states = table cells + distinct BFS states, transitions = sessions",
 		Assum: []string{"reference rule as stated in the property", "mtimes written as 'now' by a transfer never equal the alphabet's source mtimes (2009)"},
 		Parts: func(tier string) []core.Part {
